@@ -112,8 +112,13 @@ def run(tier):
         add({'e': 'doc', 'g': d}, {'doc': d, 'kind': kind})
         solos = []
         for i in range(nsent):
-            res = call_run(h, D, [i], 1, 1000)
-            dg = digest(res[0]) if len(res) == 1 else 'WRONG-NUMBER-OF-LISTS'
+            # every search of this check runs in a forked child of a parent process that has never parsed anything, so that a
+            # "solo" result really is the result of a process that has seen this sentence only
+            try:
+                res = run_forked(lambda: [digest(x) for x in call_run(h, D, [i], 1, 1000)], 180)
+            except (Hang, Machinery) as e:
+                res = ['SOLO RUN FAILED: %s' % str(e)[:150]]
+            dg = res[0] if len(res) == 1 else 'WRONG-NUMBER-OF-LISTS'
             solos.append(dg)
             add({'e': 'solo', 'g': d, 'sid': i + 1, 'nlists': len(res), 'digest': dg, 'expect_fail': D['expect_fail'][i]},
                 {'doc': d, 'kind': kind, 'sentence': i, 'words': len(D['doc'][i]), 'solo': dg[:300]})
@@ -128,6 +133,13 @@ def run(tier):
             order = rng.sample(range(nsent), k)
             plans.append((order, rng.choice([1, 2, 3, 4]), rng.choice([1, 2, 5, 20, 1000]), 'random'))
         plans.append((list(range(nsent)), 2, 20, 'default-config'))
+        # one process, one chunk: sentences after a sentence whose search failed (no parse / step budget), and random orders
+        failed_in_search = [i for i in range(nsent) if solos[i].startswith('FAILED') and not D['expect_fail'][i]]
+        for f in rng.sample(failed_in_search, min(4, len(failed_in_search))):
+            rest = rng.sample([i for i in range(nsent) if i != f], min(3, nsent - 1))
+            plans.append(([f] + rest, 1, 1000, 'after-a-failed-search'))
+        for _ in range(6 if tier == 'quick' else 20):
+            plans.append((rng.sample(range(nsent), rng.randint(2, min(nsent, 6))), 1, 1000, 'one-process'))
         for order, procs, mc, src in plans:
             raised, results = False, []
             try:
@@ -149,11 +161,10 @@ def run(tier):
             raised, results = False, []
             try:
                 sc = D['scores'][i]
-                res = h.parsing.run(D['doc'][i], type(sc)(sc.tag_scores.copy(), sc.dep_scores.copy()), list(D['cats']), list(D['roots']), D['bin'], D['un'],
-                                    processes=1, max_chunk_size=1000, **D['kwargs'])
-                results = [digest(x) for x in res]
-            except Exception as e:
-                raised, results = True, [repr(e)[:100]]
+                results = run_forked(lambda: [digest(x) for x in h.parsing.run(D['doc'][i], type(sc)(sc.tag_scores.copy(), sc.dep_scores.copy()), list(D['cats']),
+                                                                                list(D['roots']), D['bin'], D['un'], processes=1, max_chunk_size=1000, **D['kwargs'])], 180)
+            except (Hang, Machinery) as e:
+                raised, results = True, [str(e)[:100]]
             n_runs += 1
             add({'e': 'run', 'g': d, 'batch': [i + 1], 'procs': 1, 'maxchunk': 1000, 'raised': raised, 'results': results},
                 {'doc': d, 'kind': kind, 'order': [i], 'processes': 1, 'max_chunk_size': 1000, 'source': 'single-sentence calling form', 'multiprocess': False,
@@ -178,8 +189,8 @@ def run(tier):
             add({'e': 'shape', 'g': d, 'raised': raised, 'callbacks': cb.n + cu.n}, {'doc': d, 'kind': kind, 'mismatch': name, 'raised': raised, 'callbacks': cb.n + cu.n})
         ok_raised = False
         try:
-            h.parsing.run([D['doc'][0]], [sc0], list(D['cats']), list(D['roots']), D['bin'], D['un'], processes=1, max_chunk_size=1000, **D['kwargs'])
-        except Exception:
+            run_forked(lambda: len(h.parsing.run([D['doc'][0]], [sc0], list(D['cats']), list(D['roots']), D['bin'], D['un'], processes=1, max_chunk_size=1000, **D['kwargs'])), 180)
+        except (Hang, Machinery):
             ok_raised = True
         add({'e': 'shape_ok', 'g': d, 'raised': ok_raised}, {'doc': d, 'kind': kind})
     rejects, stats = validate('traces/BatchTrace.tla', events, 'c11', per_shard=200, group='g')
